@@ -10,6 +10,12 @@ CHECKS = {
    note="Trusted: the observer (swiglpk read-back) and the S2 comparison; columns/rows matched through public accessors; tolerance 1e-12 relative; +-DBL_MAX treated as infinite. Sampled histories, not exhaustive.",
    technique="runtime invariant monitor over seeded operation histories (raw solver read-back)",
    ref="DESIGN.md §4 C01"),
+ "C02": dict(
+   level="exploration",
+   text="Reference-model monitor in lock-step with the real Model: an abstract state (reactions with stoichiometry/bounds/rule, metabolites, genes, groups, objective, cross references by id) is advanced by a transition per documented editing operation (each quoting its docstring sentence) and compared with the model's abstraction after every step of seeded histories (1-25 operations, every argument shape of the catalogue incl. copies, foreign objects, failing forms, nested contexts); cross-reference symmetry and unchanged-on-raise are judged at every step.",
+   note="Trusted: the reference transitions in cv/refmodel.py (my reading of the docstrings). Fields the documentation leaves open are not compared; list order not compared.",
+   technique="runtime reference-model monitor over seeded edit histories + cross-reference invariant",
+   ref="DESIGN.md §4 C02"),
  "C03": dict(
    level="fault_enumeration",
    text="Invariant at a hook: Model.__enter__/__exit__ are wrapped; a whole-state snapshot (content by id, cross references, raw GLPK problem) taken at every __enter__ is compared with the state after the matching __exit__, for blocks of documented-reversible operations in 1-3 nested contexts that end normally, by an exception between operations, or by an operation raising by itself. Failing blocks are minimised to the triggering operation.",
@@ -52,6 +58,12 @@ CHECKS = {
    note="Trusted: exactlp certificates. ROOM exact up to a minimal count of 4; inputs where 1e-15 noise of the float reference decides the exact answer, or where a big-M coefficient (bound - w) is below 1e-7, are borderline-skipped (GLPK's unpresolved simplex is unreliable there).",
    technique="runtime oracle monitor (exact LP / exhaustive MILP enumeration)",
    ref="DESIGN.md §4 C09"),
+ "C16": dict(
+   level="exploration",
+   text="Oracle monitor on every sample frame from ACHR/OptGP (sample(), sampler objects, batch(); reaction and variable space; n 1-50, thinning 1-100, small nproj to force re-projection, processes 1-4): each row is checked against the model's own constraints (bounds, S v = 0, extra linear constraints) recomputed from the model content, validate() codes are compared with that verdict, seeds must reproduce, and the model must be unchanged by sampling.",
+   note="Trusted: ~40 lines recomputing feasibility with numpy from model content. Tolerance = sampler feasibility_tol; violation above 2x tolerance. Finite bounds; sampler give-ups (RuntimeError) counted, not judged.",
+   technique="runtime oracle monitor (feasibility recomputation per sampled row)",
+   ref="DESIGN.md §4 C16"),
  "C17": dict(
    level="exploration",
    text="Oracle monitor: every loopless_solution result is judged against its start vector (internal FBA vertex captured by a tap, pFBA, or a harness-built optimal vector with extra loop flux): feasibility, same objective, same boundary fluxes, no reversal, no growth in magnitude, and irreducibility by an exact LP (largest conformal internal cycle still removable under those conditions). add_loopless + optimize is compared with the exact optimum over all loop-free distributions (union over thermodynamically feasible sign patterns) and the reported solution is checked for conformal internal cycles by a support LP.",
@@ -94,6 +106,12 @@ CHECKS = {
    note="Trusted: snapshot/diff. Big-M analyses (room, MIP minimal medium, gapfill) only on finite bounds (GLPK aborts on infinite coefficients); non-unique outputs not compared; production envelopes on infinite bounds not compared.",
    technique="runtime before/after whole-state monitor with failure-path workloads + solve-time invariant tap",
    ref="DESIGN.md §4 C13"),
+ "C14": dict(
+   level="exploration",
+   text="Event-log checker over process-pool schedules: multiprocessing Pool methods and the task functions are tapped (PoolTap/TaskTap) to log every task with worker pid, start/end and the worker model's state before/after; for FVA, find_blocked_reactions, find_essential_*, single/double deletions the frame produced under each schedule (processes 1-8 x permuted item order x chunk size x seeded 0-5 ms delays) is compared with the serial result and with each item requested alone; exactly-once per item, no carry-over between tasks in a worker and an unchanged parent model are judged from the log.",
+   note="Trusted: event log written in workers (append-only, one line per event), comparison 1e-6 relative. Orders sampled by perturbation, not enumerated; fork start method.",
+   technique="offline event-log checker over tapped process-pool executions with injected delays",
+   ref="DESIGN.md §4 C14"),
  "C15": dict(
    level="fault_enumeration",
    text="Reference-model monitor in lock-step with the real DictList: bounded-exhaustive operation sequences (every index in [-n-2,n+1], every slice, every failing argument position) plus seeded random long sequences; coherence, list-semantics equality and unchanged-on-raise judged after every step. Exhaustive within the stated bounds, sampled beyond.",
